@@ -113,6 +113,10 @@ pub struct C02Cell {
     /// discovery is only asserted when the packet can feed the whole cluster
     pub assert_discovery: bool,
     pub lat: Vec<u64>,
+    /// generation the joiners write into the identity of the member they
+    /// announce to (every member really runs at generation 0): 0 = they know
+    /// the exact identity, 3 = they only know the address and made the rest up
+    pub seed_gen: u8,
 }
 
 pub fn pattern_name(p: u8) -> &'static str {
@@ -121,7 +125,7 @@ pub fn pattern_name(p: u8) -> &'static str {
 
 impl C02Cell {
     pub fn label(&self) -> String {
-        format!("n={} {} mt={} fanout={} periodic={} packet={}", self.n, pattern_name(self.pattern), self.mt, self.fanout, self.periodic, self.packet)
+        format!("n={} {} mt={} fanout={} periodic={} packet={}{}", self.n, pattern_name(self.pattern), self.mt, self.fanout, self.periodic, self.packet, if self.seed_gen != 0 { " announce-by-address(made-up generation)" } else { "" })
     }
     /// (time, joiner, seed)
     fn plan(&self) -> Vec<(u64, u8, u8)> {
@@ -174,7 +178,7 @@ pub fn run_c02(cell: &C02Cell, devs: &BTreeMap<usize, usize>) -> RunResult {
         if let Evt::Action { node, .. } = e {
             let seed = plan.iter().find(|p| p.1 == node).map(|p| p.2).unwrap_or(0);
             sim.spawn(node, node_id(node, false), &cfg);
-            sim.call(node, &Ev::Announce(id(seed, 0)));
+            sim.call(node, &Ev::Announce(id(seed, cell.seed_gen)));
         }
         // zero false suspicion: the node that just acted holds no live member
         // as Suspect or Down
@@ -343,7 +347,10 @@ pub fn c02(tier: &str) -> Report {
                             } else {
                                 1
                             };
-                            cells.push((C02Cell { n, pattern, mt, fanout, periodic, packet, assert_discovery, lat: vec![1, 9] }, d));
+                            cells.push((C02Cell { n, pattern, mt, fanout, periodic, packet, assert_discovery, lat: vec![1, 9], seed_gen: 0 }, d));
+                            if packet == 1400 {
+                                cells.push((C02Cell { n, pattern, mt, fanout, periodic, packet, assert_discovery, lat: vec![1, 9], seed_gen: 3 }, d.min(1)));
+                            }
                         }
                     }
                 }
@@ -355,7 +362,7 @@ pub fn c02(tier: &str) -> Report {
         for pattern in 0..3u8 {
             for &mt in &[1u8, 3, 10] {
                 for &(packet, assert_discovery) in &[(9 + 5 * n, true), (9 + 5 * (n - 2), true), (1400, true)] {
-                    cells.push((C02Cell { n, pattern, mt, fanout: 3, periodic: false, packet, assert_discovery, lat: vec![1, 9] }, usize::from(th && n <= 8)));
+                    cells.push((C02Cell { n, pattern, mt, fanout: 3, periodic: false, packet, assert_discovery, lat: vec![1, 9], seed_gen: 0 }, usize::from(th && n <= 8)));
                 }
             }
         }
@@ -422,11 +429,15 @@ pub struct C03Cell {
     /// the members that will fail refuted a suspicion earlier: their
     /// incarnation is 1 while the survivors' is 0
     pub bumped: bool,
+    /// suspect_to_down_after in ticks (300 = a multiple of the probe period;
+    /// 320 = the timeout falls due 20 ticks after a probe tick, inside the
+    /// reply window of that round's Ping)
+    pub suspect: u64,
 }
 
 impl C03Cell {
     pub fn label(&self) -> String {
-        format!("n={} failing={:?} kind={} renewable={} mt={} after-event={} phase={}{}", self.n, self.failing, if self.leave { "leave" } else { "crash" }, self.renew, self.mt, self.at_event, self.phase, if self.bumped { " failing-members-refuted-before" } else { "" })
+        format!("n={} failing={:?} kind={} renewable={} mt={} after-event={} phase={}{} suspect_to_down={}", self.n, self.failing, if self.leave { "leave" } else { "crash" }, self.renew, self.mt, self.at_event, self.phase, if self.bumped { " failing-members-refuted-before" } else { "" }, self.suspect)
     }
 }
 
@@ -437,7 +448,7 @@ pub fn run_c03(cell: &C03Cell, devs: &BTreeMap<usize, usize>) -> RunResult {
     o.record_sends = cell.leave;
     o.record_received = cell.leave;
     let mut sim = Sim::new(n, o);
-    let cfg = Cfg { max_tx: cell.mt, fanout: 3, ..base_cfg() };
+    let cfg = Cfg { max_tx: cell.mt, fanout: 3, suspect_to_down: cell.suspect, ..base_cfg() };
     if let Err(e) = form_cluster(&mut sim, n, &cfg, cell.renew, cell.phase) {
         res.violations.push(("machinery:formation".into(), e));
         return res;
@@ -483,7 +494,7 @@ pub fn run_c03(cell: &C03Cell, devs: &BTreeMap<usize, usize>) -> RunResult {
     for l in sim.logs.iter_mut() {
         l.notes.clear();
     }
-    let bound = (2 * n as u64 + 1) * PERIOD + SUSPECT;
+    let bound = (2 * n as u64 + 1) * PERIOD + cell.suspect;
     let horizon = t_fail + bound + 4 * PERIOD;
     let mut told_at: BTreeMap<(u8, u8), u64> = BTreeMap::new();
     while let Some((t, e)) = sim.step(horizon) {
@@ -643,14 +654,18 @@ pub fn c03(tier: &str) -> Report {
                         while at < rot {
                             // deviation bound per cell
                             let d = if th { if n <= 3 { 2 } else { 1 } } else { 1 };
-                            cells.push((C03Cell { n, failing: failing.clone(), leave, renew, mt, at_event: at, phase: 17, bumped: false }, d));
+                            cells.push((C03Cell { n, failing: failing.clone(), leave, renew, mt, at_event: at, phase: 17, bumped: false, suspect: SUSPECT }, d));
+                            // the timeout falls due inside the reply window of a probe round
+                            if n <= 3 || th {
+                                cells.push((C03Cell { n, failing: failing.clone(), leave, renew, mt, at_event: at, phase: 17, bumped: false, suspect: SUSPECT + 20 }, usize::from(th && n <= 3)));
+                            }
                             if at % 2 == 0 {
-                                cells.push((C03Cell { n, failing: failing.clone(), leave, renew, mt, at_event: at, phase: 17, bumped: true }, usize::from(th)));
+                                cells.push((C03Cell { n, failing: failing.clone(), leave, renew, mt, at_event: at, phase: 17, bumped: true, suspect: SUSPECT }, usize::from(th)));
                             }
                             // other relative alignments of the members' probe loops
                             if at % 3 == 0 && (th || n <= 3) {
                                 for phase in [0u64, 41] {
-                                    cells.push((C03Cell { n, failing: failing.clone(), leave, renew, mt, at_event: at, phase, bumped: false }, d.min(1)));
+                                    cells.push((C03Cell { n, failing: failing.clone(), leave, renew, mt, at_event: at, phase, bumped: false, suspect: SUSPECT }, d.min(1)));
                                 }
                             }
                             at += step;
